@@ -110,8 +110,10 @@ impl Epoch {
             days.is_finite(),
             "Attempted to initialize Epoch with non finite number"
         );
+        // The (modified) Julian date counts days from a fixed calendar date, but the duration of an
+        // epoch counts from the reference epoch of its time scale, which is not in 1900 for all of them.
         Self {
-            duration: (days - MJD_J1900) * Unit::Day,
+            duration: (days - MJD_J1900) * Unit::Day - time_scale.gregorian_epoch_offset(),
             time_scale,
         }
     }
@@ -148,7 +150,8 @@ impl Epoch {
             "Attempted to initialize Epoch with non finite number"
         );
         Self {
-            duration: (days - MJD_J1900 - MJD_OFFSET) * Unit::Day,
+            duration: (days - MJD_J1900 - MJD_OFFSET) * Unit::Day
+                - time_scale.gregorian_epoch_offset(),
             time_scale,
         }
     }
